@@ -51,6 +51,8 @@ def apply_variant(v, root: Path) -> str:
         if text.count(old) != 1:
             return f'anchor text found {text.count(old)} times in {rel}'
         path.write_text(text.replace(old, new), encoding='utf-8')
+    for rel in {e[0] for e in edits}:
+        path = root / 'src' / 'ampycloud' / rel
         try:
             compile(path.read_text(encoding='utf-8'), str(path), 'exec')  # compiled, never run
         except SyntaxError as err:
